@@ -354,6 +354,121 @@ func panicSweep(idx, n int, maxLen int) {
 	rec(nil)
 }
 
+// ---- agreement of the consumers on well-formed parameter lists ---------------------------------------
+
+// styleOfB feeds s to every consumer and returns what each makes of the cell "b" (style and hyperlink).
+func styleOfB(s string) map[string]vaxis.Style {
+	out := map[string]vaxis.Style{}
+	pick := func(name string, f func() (vaxis.Style, bool)) {
+		var st vaxis.Style
+		ok := false
+		if p, site, msg := explore.Guard(func() { st, ok = f() }); p {
+			r.Violation("C18|panic|"+name, 1, detail{Part: "parameter list -> " + name, Encoded: fmt.Sprintf("%q", s), Why: "panic in " + site + ": " + msg})
+			return
+		}
+		if ok {
+			out[name] = st
+		}
+	}
+	pick("ParseStyledString", func() (vaxis.Style, bool) {
+		for _, c := range vaxis.ParseStyledString(s) {
+			if c.Grapheme == "b" {
+				return c.Style, true
+			}
+		}
+		return vaxis.Style{}, false
+	})
+	pick("NewStyledString", func() (vaxis.Style, bool) {
+		for _, c := range host.Vx.NewStyledString(s, vaxis.Style{}).Cells {
+			if c.Grapheme == "b" {
+				return c.Style, true
+			}
+		}
+		return vaxis.Style{}, false
+	})
+	pick("embedded terminal", func() (vaxis.Style, bool) {
+		m := term.VerifNew(nil, 4, 1)
+		parser := ansi.NewParser(strings.NewReader(s))
+		for seq := range parser.Next() {
+			if _, ok := seq.(ansi.EOF); ok {
+				break
+			}
+			m.VerifFeed(seq)
+		}
+		for _, c := range m.VerifSnapshot().Primary[0] {
+			if c.Grapheme == "b" {
+				return c.Style, true
+			}
+		}
+		return vaxis.Style{}, false
+	})
+	pick("reference terminal", func() (vaxis.Style, bool) {
+		t := refterm.New(4, 1, allCaps())
+		t.Write([]byte(s))
+		for _, c := range t.Grid()[0] {
+			if c.Text == "b" {
+				st := fromRef(c.Style)
+				st.Hyperlink, st.HyperlinkParams = c.Style.Link, c.Style.LinkParams
+				return st, true
+			}
+		}
+		return vaxis.Style{}, false
+	})
+	return out
+}
+
+// agreeSweep: every list of one or two SGR parameters from the vocabulary the library produces, applied to a default pen and to a
+// pen with attributes, colours and an open hyperlink: all consumers must understand it as a terminal does.
+func agreeSweep(idx, n int) {
+	// the SGR vocabulary the library's producers write (sequences.go): bare reset, attribute on/off codes,
+	// 3x/4x/9x/10x colours, the colon forms of 38/48/58, 39/49/59, underline 4 / 4:n / 24
+	els := []string{"", "1", "2", "3", "4", "5", "7", "8", "9", "22", "23", "24", "25", "27", "28", "29", "31", "39", "42", "49", "59", "91", "104",
+		"4:0", "4:3", "38:5:9", "48:5:200", "58:5:3", "38:2:1:2:3", "48:2:4:5:6", "58:2:7:8:9"}
+	starts := []struct{ name, pre, post string }{
+		{"default pen", "", ""},
+		{"styled pen with an open hyperlink", "\x1b]8;id=1;http://x\x1b\\\x1b[1;3;4:3;31;42;58:5:3m", "\x1b]8;;\x1b\\"},
+	}
+	var lists [][]string
+	for _, a := range els {
+		lists = append(lists, []string{a})
+		for _, b := range els {
+			lists = append(lists, []string{a, b})
+		}
+	}
+	for li, l := range lists {
+		if li%n != idx {
+			continue
+		}
+		for _, st := range starts {
+			s := st.pre + "a\x1b[" + strings.Join(l, "m\x1b[") + "mb" + st.post // one sequence per element, as the producers write them
+			r.Count("agreement_lists", 1)
+			got := styleOfB(s)
+			ref, ok := got["reference terminal"]
+			if !ok {
+				continue
+			}
+			for _, name := range []string{"ParseStyledString", "NewStyledString", "embedded terminal"} {
+				c, ok := got[name]
+				if !ok {
+					r.Violation("C18|consumers-disagree|"+name+"|no-cell", len(l), detail{Part: "parameter list -> " + name, Encoded: fmt.Sprintf("%q", s), Why: "the cell after the sequence is missing"})
+					continue
+				}
+				field := "style"
+				if noLink(c) == noLink(ref) {
+					field = "hyperlink"
+					if name != "embedded terminal" {
+						continue // the styled-string parsers do not carry hyperlinks (outside the round-trip clause)
+					}
+				}
+				if c != ref {
+					r.Violation("C18|consumers-disagree|"+name+"|"+field, len(l), detail{Part: "parameter list -> " + name + " (" + st.name + ")", Encoded: fmt.Sprintf("%q", s),
+						Why: fmt.Sprintf("%s gives the next cell %s link=%q/%q, a terminal gives it %s link=%q/%q", name, styleStr(c), c.Hyperlink, c.HyperlinkParams, styleStr(ref), ref.Hyperlink, ref.HyperlinkParams)})
+				}
+			}
+		}
+	}
+}
+
 func main() {
 	r = explore.Start("C18")
 	if r.Replay != "" {
@@ -443,6 +558,7 @@ func main() {
 			}
 		case "params":
 			panicSweep(idx, n, r.Pick(3, 4))
+			agreeSweep(idx, n)
 		}
 		host.Vx.Close()
 		r.WorkerDone()
